@@ -38,6 +38,8 @@ pub struct Shim {
     pub unknown_addr: Option<usize>,
     /// (interface, task) in the order the negotiations started
     pub negotiations: Vec<(&'static str, usize)>,
+    /// (tag, task) events recorded by the Tally implementations ("r" = read done, "w" = written)
+    pub impl_events: Vec<(&'static str, usize)>,
     /// scheduler bookkeeping for the current execution
     pub path: Vec<u32>,
     pub preemptions: u32,
@@ -70,6 +72,7 @@ pub fn begin_execution() {
         s.events.clear();
         s.blocked_reqs.clear();
         s.negotiations.clear();
+        s.impl_events.clear();
         s.self_deadlock = None;
         s.active = true;
     });
@@ -80,6 +83,7 @@ pub struct ExecLog {
     pub events: Vec<(EvKind, usize, usize)>,
     pub blocked: usize,
     pub negotiations: Vec<(&'static str, usize)>,
+    pub impl_events: Vec<(&'static str, usize)>,
     pub self_deadlock: Option<(usize, usize)>,
     pub leftover_guards: usize,
     pub path: Vec<u32>,
@@ -98,6 +102,7 @@ pub fn end_execution() -> ExecLog {
             events: std::mem::take(&mut s.events),
             blocked: s.blocked_reqs.len(),
             negotiations: std::mem::take(&mut s.negotiations),
+            impl_events: std::mem::take(&mut s.impl_events),
             self_deadlock: s.self_deadlock,
             leftover_guards: s.held.len(),
             path: s.path.clone(),
@@ -114,6 +119,49 @@ pub fn note_negotiation(iface: &'static str) {
             s.negotiations.push((iface, t));
         }
     });
+}
+
+/// Event recorded by an implementation under test (Tally family).
+pub fn note_impl(tag: &'static str) {
+    SHIM.with(|s| {
+        let mut s = s.borrow_mut();
+        if s.active {
+            let t = me();
+            s.impl_events.push((tag, t));
+        }
+    });
+}
+
+/// A scheduling point inside an implementation (between its read and its write).
+pub fn sched_point() {
+    let active = SHIM.with(|s| s.borrow().active);
+    if active {
+        shuttle::thread::yield_now();
+    }
+}
+
+impl ExecLog {
+    /// Calls on the implementation that overlapped: another task's event lies between a call's
+    /// "r" and its own "w".
+    pub fn overlaps(&self) -> usize {
+        let mut n = 0;
+        for (i, (tag, t)) in self.impl_events.iter().enumerate() {
+            if *tag != "r" {
+                continue;
+            }
+            for (tag2, t2) in &self.impl_events[i + 1..] {
+                if t2 == t {
+                    if *tag2 == "w" {
+                        break;
+                    }
+                } else {
+                    n += 1;
+                    break;
+                }
+            }
+        }
+        n
+    }
 }
 
 /// Who holds what and who waits for what, for failure reports.
